@@ -521,9 +521,108 @@ func (g *gen) mutateOne(sc *Script, wild bool) {
 	}
 }
 
+// onAccept adds something the server writes as soon as a connection is accepted.
+func (g *gen) onAccept(sc *Script) {
+	var p piece
+	switch g.pick(7) {
+	case 0:
+		p = piece{acts: []Action{{Kind: "req", Method: "OPTIONS"}}, abs: "q1"}
+	case 1:
+		p = piece{acts: []Action{{Kind: "req", Method: pickOf(g, "GET_PARAMETER", "TEARDOWN", "PLAY")}}, abs: "q0"}
+	case 2:
+		ch := pickOf(g, 0, 1, 7)
+		p = piece{acts: []Action{{Kind: "frame", Ch: ch, Payload: g.framePayload()}}, abs: fmt.Sprintf("f%d", ch)}
+	case 3: // a response nobody asked for, without CSeq: taken as the answer to the first request
+		p = respPiece("r,cs=m,st=200", Mut{Op: "del", K: "CSeq"}, Mut{Op: "del", K: "Public"})
+	case 4: // with a CSeq that matches nothing
+		p = respPiece("r,cs=w", Mut{Op: "set", K: "CSeq", V: "4711"})
+	case 5:
+		p = piece{acts: []Action{{Kind: pickOf(g, "close", "rst")}}, abs: "x"}
+	default:
+		p = piece{acts: []Action{{Kind: "raw", Payload: []byte(pickOf(g, "\x00\x00", "hello\r\n", "$$$$", "RTSP/1.0")), NoParse: true}}, abs: "?"}
+	}
+	acts, abs, model := join(p)
+	sc.Accept = append(sc.Accept, Reaction{N: 1 + g.pick(2), Acts: acts, Abs: abs})
+	if !model {
+		sc.Model = false
+	}
+}
+
+// lingering conversations: timers of the play state (liveness checks, keep-alives, UDP→TCP switch)
+func (g *gen) lingering(i int) *Script {
+	sc := g.baseScript(false)
+	sc.Model = false
+	sc.Name = fmt.Sprintf("linger-%d", i)
+	sc.Cfg.BackCh = false
+	for j := range sc.Medias {
+		sc.Medias[j].Back = false
+	}
+	var prog []Call
+	for _, c := range sc.Prog {
+		prog = append(prog, c)
+		if c.Api == "play" {
+			prog = append(prog, Call{Api: "sleep", Ms: pickOf(g, 350, 700, 1300)})
+		}
+	}
+	sc.Prog = prog
+	switch g.pick(4) {
+	case 0: // automatic protocol, nothing arrives over UDP: the client switches to TCP on its own
+		sc.Cfg.Proto = 0
+		sc.Cfg.UDPms = 250
+	case 1: // UDP data arrives
+		sc.Cfg.Proto = pickOf(g, 0, 1)
+		sc.Cfg.UDPms = 250
+		var acts []Action
+		acts = append(acts, Action{Kind: "resp"})
+		for range 1 + g.pick(6) {
+			acts = append(acts, Action{Kind: "udp", Ch: g.pick(2), Payload: g.framePayload()})
+		}
+		sc.React = append(sc.React, Reaction{M: "PLAY", N: 1, Acts: acts, Abs: "?"})
+	case 2: // TCP with data flowing for a while
+		sc.Cfg.Proto = 3
+		var acts []Action
+		acts = append(acts, Action{Kind: "resp"})
+		for range 1 + g.pick(8) {
+			acts = append(acts, Action{Kind: "frame", Ch: g.pick(6), Payload: g.framePayload()}, Action{Kind: "sleep", Ms: 20 + g.pick(150)})
+		}
+		sc.React = append(sc.React, Reaction{M: "PLAY", N: 1, Acts: acts, Abs: "?"})
+	default: // a session timeout that makes the client send keep-alives every second
+		sc.React = append(sc.React, Reaction{M: "SETUP", N: 1, Acts: []Action{{Kind: "resp", Muts: []Mut{{Op: "set", K: "Session", V: "S1;timeout=6"}}}}, Abs: "?"})
+	}
+	for range g.pick(3) {
+		g.mutateOne(sc, g.chance(0.3))
+	}
+	sc.Model = false
+	return sc
+}
+
+// concurrent: Close() is called from another goroutine while a call is being served
+func (g *gen) concurrent(i int) *Script {
+	sc := g.baseScript(g.chance(0.3))
+	sc.Name = fmt.Sprintf("conc-%d", i)
+	sc.Model = false
+	sc.ConcAt = 1 + g.pick(len(sc.Prog))
+	sc.ConcClose = pickOf(g, 0, 1, 5, 40, g.rt/2)
+	ms := progMethods(sc)
+	t := ms[g.pick(len(ms))]
+	var acts []Action
+	switch g.pick(3) {
+	case 0:
+	case 1:
+		acts = []Action{{Kind: "sleep", Ms: g.rt / 2}, {Kind: "resp"}}
+	default:
+		acts = []Action{{Kind: "sleep", Ms: 20}, {Kind: "resp"}}
+	}
+	sc.React = append(sc.React, Reaction{M: t.m, N: 1 + g.pick(t.n), Acts: acts, Abs: "?"})
+	return sc
+}
+
 // script makes one mutated conversation.
 func (g *gen) script(i int, wild bool) *Script {
 	sc := g.baseScript(g.chance(0.3))
+	if g.chance(0.08) {
+		g.onAccept(sc)
+	}
 	n := 1
 	if g.chance(0.3) {
 		n = 2
